@@ -11,6 +11,7 @@ directly into the registers of a real sketch, for every precision 7..16:
   (c) empty, all ones, single zero, all at the maximum rank
   (d) register arrays reached from real key sets at loads 0.01..100 keys/register
   (e) three-rank mixtures
+  (f) pairs of states with equal register sums, queried back to back on one object
 Oracle: reference estimator M6 (vf/models/hll.py) computed with math.fsum from
 the tables shipped in hll_constants.py, relative 1e-9; within 1e-9 of a switch
 point either branch is accepted.  Table sanity: raw_estimate rows strictly
@@ -67,17 +68,19 @@ def check_hist(sub, sk, p, tab, hist, fam, stats, shuffle=False):
     exp, branch = ref_values(hist, p, tab)
     stats["n"] += 1
     stats["branches"].add((p, branch))
+    prev = list(stats.get("prev", []))
+    stats["prev"] = (prev + [[sorted(hist.items()), shuffle]])[-2:]
     try:
         got = float(sk.query())
     except Exception as e:
-        sub.violation({"p": p, "hist": sorted(hist.items()), "shuffle": shuffle},
+        sub.violation({"p": p, "hist": sorted(hist.items()), "shuffle": shuffle, "prev": prev},
                       f"p={p} histogram {sorted(hist.items())[:4]} ({fam}): query() raised "
                       f"{type(e).__name__}: {e}")
         return
     ok = any(abs(got - e) <= REL * max(1.0, abs(e)) for e in exp)
     if not ok:
         sub.violation(
-            {"p": p, "hist": sorted(hist.items()), "shuffle": shuffle},
+            {"p": p, "hist": sorted(hist.items()), "shuffle": shuffle, "prev": prev},
             f"p={p} histogram {sorted(hist.items())[:4]} ({fam}, branch {branch}): query() = "
             f"{got!r}, HLL++ estimator = {exp[0]!r}",
         )
@@ -156,6 +159,22 @@ def task(arg):
                     hist = {0: z, r: rest, r + 2: k}
                     hist = {kk: c for kk, c in hist.items() if c}
                     check_hist(sub, sk, p, tab, hist, "e", stats, shuffle=(r == 3))
+        # (f) consecutive queries of ONE object on different register states with the SAME
+        #     register sum (and the same number of zeros): the answer must follow the state
+        if m % 4 == 0:
+            pairs = [({2: m}, {1: m // 2, 3: m // 2}),
+                     ({0: m // 4, 2: 3 * m // 4}, {0: m // 4, 1: m // 2, 4: m // 4}),
+                     ({3: m}, {1: m // 2, 5: m // 2}),
+                     ({0: 1, 2: m - 1}, {0: 1, 1: (m - 2) // 2 + 1, 3: (m - 2) // 2}) if (m - 2) % 2 == 0 else None]
+            for pr in pairs:
+                if pr is None:
+                    continue
+                h1, h2 = pr
+                if sum(r * c for r, c in h1.items()) != sum(r * c for r, c in h2.items()):
+                    continue
+                for a_, b_ in ((h1, h2), (h2, h1), (h1, h2)):
+                    check_hist(sub, sk, p, tab, a_, "f-same-sum", stats)
+                    check_hist(sub, sk, p, tab, b_, "f-same-sum", stats)
         # (d) real key sets
         loads = (0.01, 0.1, 0.5, 1, 3, 10) + ((30, 100) if (p <= 12 or tier == "thorough") else ())
         real = SK.make("hll", p, 2**63 + seed)
@@ -237,5 +256,9 @@ def replay(case):
     sk = SK.make("hll", p, 0)
     hist = {int(r): int(c) for r, c in case["hist"]}
     stats = {"n": 0, "branches": set()}
+    # the same object was queried on other register states just before: replay those too
+    for ph, psh in case.get("prev", []):
+        check_hist(sub, sk, p, tab, {int(r): int(c) for r, c in ph}, "replay-prev", stats, shuffle=psh)
+    sub.violations = []
     check_hist(sub, sk, p, tab, hist, "replay", stats, shuffle=case.get("shuffle", False))
     return bool(sub.violations), {"problems": [m_ for _, m_ in sub.violations]}
